@@ -137,6 +137,9 @@ def run_pv(cases, jobs=8, tag="pv"):
             line = line.strip()
             if line:
                 out.append(json.loads(line))
+    if os.environ.get("VERIF_KEEP"):
+        shutil.copy(cf, "/dev/shm/t/keep-%s-cases.ndjson" % tag)
+        shutil.copy(of, "/dev/shm/t/keep-%s-out.ndjson" % tag)
     os.unlink(cf)
     os.unlink(of)
     if len(out) != len(cases):
